@@ -143,6 +143,10 @@ def run(tier):
         for sh in gen.SHELLS:
             add("special:" + nm, data, shell=sh, dest="file")
     add("missing_input", b"", input="missing")
+    for i in list(toks)[:12]:
+        add("stdin:" + toks[i][0], toks[i][3], input="stdin", dest=rnd.choice(["stdout", "file", "existing"]))
+    for j, sp in enumerate(soups(rnd, 30)):
+        add("stdin-soup:%d" % j, sp, input="stdin", dest="stdout")
     obs, stats = cli.observe(cases, sample=60 if tier == "quick" else 400, seed=seed, max_confirm=150 if tier == "quick" else 600,
                              alarming=lambda o: o.get("exit") not in (0, 1) or (o.get("exit") == 1 and o.get("stderr_len", 1) == 0) or
                              (o.get("exit") == 1 and o.get("dest") == "written"))
